@@ -216,6 +216,25 @@ Theorem C05_untar_restores : forall (pr : proc) a ch,
 Proof. exact untar_restores. Qed.
 Print Assumptions C05_untar_restores.
 
+(* LocalFS.CreateFile removes whatever is at the path before it creates the file (os.RemoveAll).
+   Consequence: the directory it leaves does not depend on what was there -- a file of an earlier
+   generation with other content, more xattrs or further hard links, a directory, a link, a device. *)
+Theorem C05_create_file_independent : forall pr o m ents nm old mt xs data,
+  assoc nm ents = None ->
+  create_file pr o [nm] mt xs data (FDir m (ents ++ [(nm, old)])) =
+  create_file pr o [nm] mt xs data (FDir m ents).
+Proof. exact create_file_independent. Qed.
+Print Assumptions C05_create_file_independent.
+
+(* A CreateFile that re-used a regular file already there (emptied by O_TRUNC) would keep the
+   xattrs the archive does not have: the old file's u=1 survives in the variant, not in the code. *)
+Example C05_create_file_reuse_refuted :
+  let pr := mkProc 0 0 18 in
+  let mt := mkMeta 0 0 33188 5 in
+  xattrs_of_a (create_file_reuse pr default_opts [[97]] mt [] [1] reuse_before) = Some [([117], [1])] /\
+  xattrs_of_a (create_file pr default_opts [[97]] mt [] [1] reuse_before) = Some [].
+Proof. exact create_file_reuse_refuted. Qed.
+
 (* KNOWN FINDINGS, each for EVERY tree that contains such an object and every option set
    ([unpacked pr o t r]: r is the result of the run above). *)
 
